@@ -1,5 +1,6 @@
 import ScVerif.C11.ExecCheck
 import ScVerif.C11.ExecNeed
+import ScVerif.C11.ExecSync
 /-!
 C11 — MANY objects.  `Exec.lean` is the view of ONE object: its lock and channel numbers are the table's
 per-type numbers.  A running program has many instances of a type (and objects of many types) at once; lock 0
@@ -21,6 +22,11 @@ and proves that the one-object view is sound and loses nothing:
 * `many_discipline_orders`: if the projection on object `o` conforms to a table that satisfies the lock
   discipline, then in the whole execution any two conflicting accesses to `o` by different goroutines are
   ordered by happens-before — whatever happens on all other objects, which need not conform to anything;
+* `mhb_needs_own_release` / `mhb_needs_own_acquire`: whole-program happens-before leaves a goroutine through
+  its own release and enters through the other's own acquire, on whatever objects (round 7's statements, now
+  with the lent argument and the resource it is lent to as two objects: `exLent`);
+* `onObj`, `many_noRace_iff`: a one-object execution is a many-object one with the same happens-before, so the
+  discipline is also NECESSARY in the many-object world;
 * `mhb_needs_sync` + the example `exOther`: holding the lock of ANOTHER instance orders nothing (the
   projection does not conform: the row's lock is not held on the object that is accessed).
 -/
@@ -321,5 +327,198 @@ def exOther : List MEv :=
   [(0, .pub 0), (1, .pub 0), (0, .get 1), (1, .get 1), (1, .get 2),
    (0, .acq 1 0 .excl), (1, .acc 1 exW), (1, .acq 2 0 .excl), (1, .acc 2 exW), (1, .rel 2 0 .excl),
    (0, .rel 1 0 .excl)]
+
+/-! ### who has to synchronise, across objects -/
+
+theorem mhb_valid_left {es : List MEv} {i j : Nat} (h : MHB es i j) : ∃ e, es[i]? = some e := by
+  induction h with
+  | po _ h _ _ => exact ⟨_, h⟩
+  | lock _ h _ _ => exact ⟨_, h⟩
+  | chan _ h _ => exact ⟨_, h⟩
+  | publ _ h _ => exact ⟨_, h⟩
+  | join _ h _ => exact ⟨_, h⟩
+  | trans _ _ ih₁ _ => exact ih₁
+
+theorem mhb_needs_own_release {es : List MEv} {i j : Nat} (h : MHB es i j) : ∀ {e₁ e₂ : MEv}, es[i]? = some e₁ →
+    es[j]? = some e₂ → e₁.2.thr ≠ e₂.2.thr →
+    ∃ p e, i ≤ p ∧ p < j ∧ es[p]? = some e ∧ e.2.isRelease = true ∧ e.2.thr = e₁.2.thr := by
+  induction h with
+  | po _ h₁ h₂ ht =>
+    intro e₁ e₂ g₁ g₂ hne
+    rw [h₁] at g₁; rw [h₂] at g₂; cases g₁; cases g₂; exact absurd ht hne
+  | lock hlt h₁ _ _ =>
+    intro e₁ _ g₁ _ _; rw [h₁] at g₁; cases g₁; exact ⟨_, _, Nat.le_refl _, hlt, h₁, rfl, rfl⟩
+  | chan hlt h₁ _ =>
+    intro e₁ _ g₁ _ _; rw [h₁] at g₁; cases g₁; exact ⟨_, _, Nat.le_refl _, hlt, h₁, rfl, rfl⟩
+  | publ hlt h₁ _ =>
+    intro e₁ _ g₁ _ _; rw [h₁] at g₁; cases g₁; exact ⟨_, _, Nat.le_refl _, hlt, h₁, rfl, rfl⟩
+  | join hlt h₁ _ =>
+    intro e₁ _ g₁ _ _; rw [h₁] at g₁; cases g₁; exact ⟨_, _, Nat.le_refl _, hlt, h₁, rfl, rfl⟩
+  | @trans i k j hik hkj ih₁ ih₂ =>
+    intro e₁ e₂ g₁ g₂ hne
+    obtain ⟨ek, hk⟩ := mhb_valid_right hik
+    have l₁ := mhb_lt hik
+    have l₂ := mhb_lt hkj
+    by_cases ht : e₁.2.thr = ek.2.thr
+    · obtain ⟨p, e, h1, h2, h3, h4, h5⟩ := ih₂ hk g₂ (by rw [← ht]; exact hne)
+      exact ⟨p, e, by omega, h2, h3, h4, by rw [h5, ht]⟩
+    · obtain ⟨p, e, h1, h2, h3, h4, h5⟩ := ih₁ g₁ hk ht
+      exact ⟨p, e, h1, by omega, h3, h4, h5⟩
+
+theorem mhb_needs_own_acquire {es : List MEv} {i j : Nat} (h : MHB es i j) : ∀ {e₁ e₂ : MEv}, es[i]? = some e₁ →
+    es[j]? = some e₂ → e₁.2.thr ≠ e₂.2.thr →
+    ∃ q e, i < q ∧ q ≤ j ∧ es[q]? = some e ∧ e.2.isAcquire = true ∧ e.2.thr = e₂.2.thr := by
+  induction h with
+  | po _ h₁ h₂ ht =>
+    intro e₁ e₂ g₁ g₂ hne
+    rw [h₁] at g₁; rw [h₂] at g₂; cases g₁; cases g₂; exact absurd ht hne
+  | lock hlt _ h₂ _ =>
+    intro _ e₂ _ g₂ _; rw [h₂] at g₂; cases g₂; exact ⟨_, _, hlt, Nat.le_refl _, h₂, rfl, rfl⟩
+  | chan hlt _ h₂ =>
+    intro _ e₂ _ g₂ _; rw [h₂] at g₂; cases g₂; exact ⟨_, _, hlt, Nat.le_refl _, h₂, rfl, rfl⟩
+  | publ hlt _ h₂ =>
+    intro _ e₂ _ g₂ _; rw [h₂] at g₂; cases g₂; exact ⟨_, _, hlt, Nat.le_refl _, h₂, rfl, rfl⟩
+  | join hlt _ h₂ =>
+    intro _ e₂ _ g₂ _; rw [h₂] at g₂; cases g₂; exact ⟨_, _, hlt, Nat.le_refl _, h₂, rfl, rfl⟩
+  | @trans i k j hik hkj ih₁ ih₂ =>
+    intro e₁ e₂ g₁ g₂ hne
+    obtain ⟨ek, hk⟩ := mhb_valid_right hik
+    have l₁ := mhb_lt hik
+    have l₂ := mhb_lt hkj
+    by_cases ht : ek.2.thr = e₂.2.thr
+    · obtain ⟨q, e, h1, h2, h3, h4, h5⟩ := ih₁ g₁ hk (by rw [ht]; exact hne)
+      exact ⟨q, e, h1, by omega, h3, h4, by rw [h5, ht]⟩
+    · obtain ⟨q, e, h1, h2, h3, h4, h5⟩ := ih₂ hk g₂ ht
+      exact ⟨q, e, by omega, h2, h3, h4, h5⟩
+
+/-- goroutine `t` executes no release, on any object, at the positions `[i, j)` -/
+def mnoReleaseBy (es : List MEv) (t i j : Nat) : Bool :=
+  (List.range (j - i)).all fun d => match es[i + d]? with
+    | some e => !(e.2.isRelease && e.2.thr == t)
+    | none => true
+
+/-- …and no acquire, on any object, at the positions `(i, j]` -/
+def mnoAcquireBy (es : List MEv) (t i j : Nat) : Bool :=
+  (List.range (j - i)).all fun d => match es[i + 1 + d]? with
+    | some e => !(e.2.isAcquire && e.2.thr == t)
+    | none => true
+
+theorem not_mhb_of_no_own_release {es : List MEv} {i j : Nat} {e₁ e₂ : MEv} (h₁ : es[i]? = some e₁)
+    (h₂ : es[j]? = some e₂) (hne : e₁.2.thr ≠ e₂.2.thr) (hn : mnoReleaseBy es e₁.2.thr i j = true) : ¬ MHB es i j := by
+  intro h
+  obtain ⟨p, e, hp1, hp2, hp3, hp4, hp5⟩ := mhb_needs_own_release h h₁ h₂ hne
+  have := (List.all_eq_true.mp hn) (p - i) (List.mem_range.mpr (by omega))
+  have hpi : i + (p - i) = p := by omega
+  rw [hpi, hp3] at this
+  simp [hp4, hp5] at this
+
+theorem not_mhb_of_no_own_acquire {es : List MEv} {i j : Nat} {e₁ e₂ : MEv} (h₁ : es[i]? = some e₁)
+    (h₂ : es[j]? = some e₂) (hne : e₁.2.thr ≠ e₂.2.thr) (hn : mnoAcquireBy es e₂.2.thr i j = true) : ¬ MHB es i j := by
+  intro h
+  obtain ⟨q, e, hq1, hq2, hq3, hq4, hq5⟩ := mhb_needs_own_acquire h h₁ h₂ hne
+  have := (List.all_eq_true.mp hn) (q - (i + 1)) (List.mem_range.mpr (by omega))
+  have hqi : i + 1 + (q - (i + 1)) = q := by omega
+  rw [hqi, hq3] at this
+  simp [hq4, hq5] at this
+
+/-! ### a one-object execution, seen as a many-object one -/
+
+/-- all events on object `o` -/
+def onObj (o : Nat) (es : List XEv) : List MEv := es.map fun e => (o, e)
+
+theorem onObj_inv {o : Nat} {es : List XEv} {k : Nat} {e : MEv} (h : (onObj o es)[k]? = some e) :
+    ∃ x, es[k]? = some x ∧ e = (o, x) := by
+  simp only [onObj, List.getElem?_map, Option.map_eq_some_iff] at h
+  obtain ⟨x, hx, he⟩ := h
+  exact ⟨x, hx, he.symm⟩
+
+theorem onObj_get {o : Nat} {es : List XEv} {k : Nat} {x : XEv} (h : es[k]? = some x) :
+    (onObj o es)[k]? = some (o, x) := by
+  simp [onObj, List.getElem?_map, h]
+
+theorem proj_onObj_self (o : Nat) : ∀ (es : List XEv), proj o (onObj o es) = es
+  | [] => rfl
+  | e :: es => by simp only [onObj, List.map_cons, proj, if_true]; rw [← onObj, proj_onObj_self o es]
+
+theorem proj_onObj_other {o o' : Nat} (h : o ≠ o') : ∀ (es : List XEv), proj o' (onObj o es) = []
+  | [] => rfl
+  | e :: es => by simp only [onObj, List.map_cons, proj, h, if_false]; rw [← onObj, proj_onObj_other h es]
+
+/-- with all events on one object, the many-object happens-before is that object's -/
+theorem hb_of_mhb_onObj {o : Nat} {es : List XEv} {i j : Nat} (h : MHB (onObj o es) i j) : HB es i j := by
+  induction h with
+  | po hlt h₁ h₂ ht =>
+    obtain ⟨x₁, g₁, rfl⟩ := onObj_inv h₁
+    obtain ⟨x₂, g₂, rfl⟩ := onObj_inv h₂
+    exact HB.po hlt g₁ g₂ ht
+  | lock hlt h₁ h₂ hx =>
+    obtain ⟨x₁, g₁, e₁⟩ := onObj_inv h₁
+    obtain ⟨x₂, g₂, e₂⟩ := onObj_inv h₂
+    cases e₁; cases e₂
+    exact HB.lock hlt g₁ g₂ hx
+  | chan hlt h₁ h₂ =>
+    obtain ⟨x₁, g₁, e₁⟩ := onObj_inv h₁
+    obtain ⟨x₂, g₂, e₂⟩ := onObj_inv h₂
+    cases e₁; cases e₂
+    exact HB.chan hlt g₁ g₂
+  | publ hlt h₁ h₂ =>
+    obtain ⟨x₁, g₁, e₁⟩ := onObj_inv h₁
+    obtain ⟨x₂, g₂, e₂⟩ := onObj_inv h₂
+    cases e₁; cases e₂
+    exact HB.publ hlt g₁ g₂
+  | join hlt h₁ h₂ =>
+    obtain ⟨x₁, g₁, e₁⟩ := onObj_inv h₁
+    obtain ⟨x₂, g₂, e₂⟩ := onObj_inv h₂
+    cases e₁; cases e₂
+    exact HB.join hlt g₁ g₂
+  | trans _ _ ih₁ ih₂ => exact HB.trans ih₁ ih₂
+
+theorem mrun_onObj {cr : Nat → Nat} {o : Nat} {es : List XEv} {sf : XState}
+    (hv : xrun (cr o) XState.init es = some sf) : ∃ S', mrun cr minit (onObj o es) = some S' := by
+  apply mrun_of_proj
+  intro o'
+  by_cases h : o = o'
+  · subst h; rw [proj_onObj_self]; exact ⟨sf, hv⟩
+  · rw [proj_onObj_other h]; exact ⟨minit o', rfl⟩
+
+theorem conforms_nil (cr : Nat) (ρ : Nat → Nat) (tbl : List Access) : Conforms cr ρ tbl [] :=
+  ⟨by intro k t a h; simp at h, by intro k t a s h; simp at h, by intro k t a s h; simp at h,
+   by intro k t a h; simp at h, by intro k t a h; simp at h, by intro k t a h; simp at h⟩
+
+/-- data-race freedom of the many-object executions of a table (every object conforms to it) -/
+def MNoRace (tbl : List Access) : Prop :=
+  ∀ (cr : Nat → Nat) (ρ : Nat → Nat → Nat) (es : List MEv) (Sf : Nat → XState), mrun cr minit es = some Sf →
+    (∀ o, Conforms (cr o) (ρ o) tbl (proj o es)) → ∀ (o p q t₁ t₂ : Nat) (a b : Access),
+    es[p]? = some (o, XEv.acc t₁ a) → es[q]? = some (o, XEv.acc t₂ b) → t₁ ≠ t₂ → conflict a b →
+    MHB es p q ∨ MHB es q p
+
+theorem noRace_of_mnoRace {tbl : List Access} (h : MNoRace tbl) : NoRace tbl := by
+  intro cr ρ es sf hv hc i j t₁ t₂ a b hi hj hne hcf
+  obtain ⟨S', hS'⟩ := mrun_onObj (cr := fun _ => cr) (o := 0) hv
+  have hcs : ∀ o, Conforms cr ρ tbl (proj o (onObj 0 es)) := by
+    intro o
+    by_cases ho : 0 = o
+    · subst ho; rw [proj_onObj_self]; exact hc
+    · rw [proj_onObj_other ho]; exact conforms_nil _ _ _
+  rcases h (fun _ => cr) (fun _ => ρ) (onObj 0 es) S' hS' hcs 0 i j t₁ t₂ a b (onObj_get hi) (onObj_get hj) hne hcf with h | h
+  · exact Or.inl (hb_of_mhb_onObj h)
+  · exact Or.inr (hb_of_mhb_onObj h)
+
+/-- **Discipline ⇔ no race, with any number of instances.** -/
+theorem many_noRace_iff {tbl : List Access} (hwf : ∀ a ∈ tbl, WfRow a) : raceFree tbl ↔ MNoRace tbl :=
+  ⟨fun hrf _ _ _ _ hv hc _ _ _ _ _ _ _ hp hq hne hcf => many_no_data_race (fun _ => hrf) hv hc hp hq hne hcf,
+   fun h => raceFree_of_noRace hwf (noRace_of_mnoRace h)⟩
+
+/-! ### a lent argument next to the resource it is lent to
+
+Object 0 is the resource (a `Value` with its `mu` = lock 0), object 1 the message a caller hands to a write
+call; goroutine 1 is the caller (creator of the message), goroutine 2 a goroutine the library starts from a
+timer with the message, goroutine 3 a reader of the resource.
+0: the caller builds the message; 1–2: the write call arms the timer = hands the message over, the timer
+goroutine starts; 3–5: under the RESOURCE's write lock the caller's side writes the message (Merge's in-place
+filter); 6–7: a reader of the resource; 8: the timer goroutine reads the message. -/
+def exLent : List MEv :=
+  [(1, .acc 1 lentW), (1, .pub 1), (1, .get 2), (0, .acq 1 0 .excl), (1, .acc 1 lentW), (0, .rel 1 0 .excl),
+   (0, .acq 3 0 .shared), (0, .rel 3 0 .shared), (1, .acc 2 lentR)]
 
 end ScVerif.C11
